@@ -2,7 +2,8 @@
 # run every claimed check's quick (or $1) tier on the current trees; print one line per check
 cd "$(dirname "$0")/.."
 TIER=${1:-quick}
-for id in $(/venv/bin/python -c "import json; print(' '.join(c['property_id'] for c in json.load(open('MANIFEST.json'))['checks']))"); do
+IDS=${@:2}
+for id in ${IDS:-$(/venv/bin/python -c "import json; print(' '.join(c['property_id'] for c in json.load(open('MANIFEST.json'))['checks']))")}; do
   s=$(date +%s)
   out=$(/venv/bin/python run.py check $id --tier $TIER 2>&1)
   rc=$?
